@@ -712,6 +712,8 @@ func runC03(c *Ctx) {
 						return "del"
 					case ctlOp("EPOLL_CTL_ADD"):
 						return "add"
+					case ctlOp("EPOLL_CTL_MOD"):
+						return "mod"
 					}
 					return ""
 				}
@@ -817,6 +819,9 @@ func runC03(c *Ctx) {
 			}
 			for _, use := range usesIn(fn) {
 				kind := use.kind
+				if kind == "mod" {
+					continue
+				}
 				nOps++
 				seenKind[kind] = true
 				good := false
@@ -837,6 +842,60 @@ func runC03(c *Ctx) {
 				} else {
 					c.check(good, fn, "kernel addition", use.in.Pos(), "EPOLL_CTL_ADD only when Slot.Events was empty", "the descriptor is added to the epoll set although it may already be in it (the addition is not guarded by the previous Slot.Events == 0): the registration fails with EEXIST while an operation of the other direction is parked")
 				}
+			}
+		}
+		// a change of Slot.Events that is reported as successful was handed to the kernel on that path
+		for _, fn := range internalFuncs {
+			if prims[fn] != "" || len(storesTo(fn, eventsF)) == 0 {
+				continue
+			}
+			paths, overflow := enumPaths(fn)
+			if overflow {
+				continue
+			}
+			for _, path := range paths {
+				if path.Panics {
+					continue
+				}
+				ret := path.Ret()
+				if ret == nil || len(ret.Results) == 0 {
+					continue
+				}
+				if path.nilness(ret.Results[len(ret.Results)-1]) == "nonnil" {
+					continue
+				}
+				instrs := path.Instrs()
+				first := -1
+				for i, in := range instrs {
+					if st, ok := in.(*ssa.Store); ok && first < 0 {
+						if fv, _ := fieldAddrOf(st.Addr); fv == eventsF {
+							first = i
+						}
+					}
+				}
+				if first < 0 {
+					continue
+				}
+				told := false
+				for _, in := range instrs[first+1:] {
+					call, ok := in.(*ssa.Call)
+					if !ok {
+						continue
+					}
+					if prims[call.Call.StaticCallee()] != "" {
+						told = true
+					}
+					for _, a := range call.Call.Args {
+						if ac, ok := stripConv(a).(*ssa.Call); ok && isCallToFn(ac, createEv) {
+							told = true // the operation chosen by a helper and called through its value
+						}
+					}
+				}
+				pos := fn.Pos()
+				if st, ok := instrs[first].(*ssa.Store); ok {
+					pos = st.Pos()
+				}
+				c.check(told, fn, "kernel told", pos, "a recorded change of the interest mask is followed by epoll_ctl on that path", "Slot.Events is changed and success reported on a path that issues no epoll_ctl: the slot records an interest the kernel does not watch (the operation is parked for ever) or the kernel keeps reporting one the slot has dropped ("+path.String()+")")
 			}
 		}
 		if !seenKind["del"] || !seenKind["add"] {
